@@ -354,6 +354,61 @@ struct Case {
     ops: Vec<Op>,
     states: Vec<(St, u16, u16)>,
     tick_idx: Vec<u64>,
+    /// frame-counter plans; only for templates made of printable ASCII literals and newlines
+    frames: Vec<FramePlan>,
+}
+
+/// Successive draws of ONE bar on a terminal of width `tw`; before each step the terminal height is
+/// set to the step's value.  Action 0 = force_draw(), 1 = finish_and_clear() (draws an empty frame
+/// and leaves the bar hidden, so every later frame is empty too).
+#[derive(Clone, Debug)]
+struct FramePlan {
+    tw: u16,
+    steps: Vec<(u8, u16)>,
+}
+
+/// the lines format_state produces for a literal-only template: its '\n'-separated pieces, the
+/// last one only if it is not empty (style.rs:391-399)
+fn literal_lines(t: &str) -> Vec<usize> {
+    let mut v: Vec<usize> = t.split('\n').map(|l| l.len()).collect();
+    if v.last() == Some(&0) {
+        v.pop();
+    }
+    v
+}
+
+/// Runs a plan; per step (line widths of the frame, height, number of clear_line calls observed).
+fn run_frames(style: &ProgressStyle, template: &str, plan: &FramePlan) -> Result<Vec<(Vec<usize>, u16, usize)>, String> {
+    indicatif::verif_clock::set_auto_step_ns(0);
+    let spy = Spy::new(plan.tw, 24);
+    let pb = catch(|| {
+        let pb = ProgressBar::with_draw_target(Some(3), ProgressDrawTarget::term_like(Box::new(spy.clone())));
+        pb.set_style(style.clone());
+        pb
+    })?;
+    let mut out = vec![];
+    let mut hidden = false;
+    for (act, th) in &plan.steps {
+        spy.set_size(plan.tw, *th);
+        spy.take();
+        let r = catch(|| match act {
+            0 => pb.force_draw(),
+            _ => pb.finish_and_clear(),
+        });
+        if let Err(m) = r {
+            std::mem::forget(pb);
+            return Err(m);
+        }
+        if *act != 0 {
+            hidden = true;
+        }
+        let clears = spy.take().iter().filter(|o| matches!(o, TOp::Clear)).count();
+        out.push((if hidden { vec![] } else { literal_lines(template) }, *th, clears));
+    }
+    if let Err(m) = catch(move || drop(pb)) {
+        return Err(m);
+    }
+    Ok(out)
 }
 
 fn case_desc(c: &Case) -> String {
@@ -539,14 +594,47 @@ fn run_case(s: &mut Session, c: &Case, child: bool) -> String {
             outcome.push_str(&match &got { Ok(g) => format!("[{}]", esc(g)), Err(_) => "[!]".into() });
         }
     }
+    // ---- the frame counter across draws (draw_to_term: cap at the height, break, empty frames)
+    let mut fprobes = vec![];
+    if let (Some(style), Ctor::WithTemplate(t)) = (&style, &c.ctor) {
+        for plan in &c.frames {
+            match run_frames(style, t, plan) {
+                Err(m) => s.fail(&format!("draw-panic-frames-{}", panic_kind(&m)), format!("frame plan {plan:?} panicked: {m}"), desc.clone()),
+                Ok(steps) => {
+                    let mut prev_empty = false;
+                    for (ls, th, clears) in &steps {
+                        s.count(&format!("frame:{}", if ls.is_empty() { "empty" } else if *th == 0 { "height0" } else { "lines" }));
+                        // oracle: the redrawn region is never taller than the terminal; nothing to erase after an empty frame
+                        if *clears > *th as usize {
+                            s.fail("frame-clears-exceed-height", format!("{clears} rows cleared on a terminal of height {th} ({plan:?})"), desc.clone());
+                        }
+                        if prev_empty && *clears != 0 {
+                            s.fail("frame-count-after-empty", format!("{clears} rows cleared right after an empty frame ({plan:?})"), desc.clone());
+                        }
+                        prev_empty = ls.is_empty();
+                        if *clears > 0 && *clears == *th as usize {
+                            s.count("frame:capped-or-full");
+                        }
+                    }
+                    fprobes.push(format!(
+                        "({}, {})",
+                        plan.tw,
+                        clist(steps.iter().map(|(ls, th, cl)| format!("({}, {}, {})", clist(ls.iter().map(|w| w.to_string())), th, cl)))
+                    ));
+                    outcome.push_str(&format!("{{{}}}", steps.iter().map(|x| x.2.to_string()).collect::<Vec<_>>().join(",")));
+                }
+            }
+        }
+    }
     if !child {
         let coq = format!(
-            "({}, {}, {}, {}, {})",
+            "({}, {}, {}, {}, {}, {})",
             c.ctor.coq(),
             clist(c.ops.iter().map(|o| o.coq())),
             obs,
             clist(probes),
-            clist(tprobes)
+            clist(tprobes),
+            clist(fprobes)
         );
         let nontrivial = !c.ops.is_empty() || matches!(c.ctor, Ctor::WithTemplate(_));
         s.case(coq, desc, nontrivial);
@@ -742,7 +830,7 @@ fn gen_case(r: &mut Rng, per_width: usize) -> Case {
     }
     let states = gen_states(r, per_width);
     let tick_idx = tick_indices(r, &ops);
-    Case { ctor, ops, states, tick_idx }
+    Case { ctor, ops, states, tick_idx, frames: vec![] }
 }
 
 fn corpus(r: &mut Rng) -> Vec<Case> {
@@ -810,7 +898,7 @@ fn corpus(r: &mut Rng) -> Vec<Case> {
             raw.push((Ctor::WithTemplate(s("{spinner}{bar:10}{wide_bar}")), vec![Op::ProgressChars(cl)]));
         }
     }
-    raw.into_iter()
+    let mut v: Vec<Case> = raw.into_iter()
         .map(|(ctor, ops)| {
             let mut states = gen_states(r, 1);
             // the boundary states on the narrowest and the widest terminal
@@ -820,10 +908,12 @@ fn corpus(r: &mut Rng) -> Vec<Case> {
                 }
             }
             let tick_idx = tick_indices(r, &ops);
-            Case { ctor, ops, states, tick_idx }
+            Case { ctor, ops, states, tick_idx, frames: vec![] }
         })
         .chain(huge_tab_cases())
-        .collect()
+        .collect();
+    v.extend(frame_cases(r));
+    v
 }
 
 /// tab widths above isize::MAX (the refuted clause) and just below a sane bound
@@ -841,6 +931,7 @@ fn huge_tab_cases() -> Vec<Case> {
             })
             .collect(),
         tick_idx: vec![0, u64::MAX],
+        frames: vec![],
     };
     let tabs = [usize::MAX, (isize::MAX as usize) + 1, 4096, 0];
     // tab widths in (4096, isize::MAX]: the class boundary from below.  TAB-free texts and no
@@ -868,6 +959,29 @@ fn huge_tab_cases() -> Vec<Case> {
         mk("{spinner}", vec![], "", "", &tabs),
         mk("{bar} {pos}", vec![Op::WithKey(s("unused"), s("x"))], "a\tb", "\t", &tabs),
     ]);
+    v
+}
+
+/// draw_to_term's counter (dadbe71, 7d42cff): frames taller than the terminal (the loop breaks),
+/// a terminal that shrinks between draws (the count is capped at the new height before it is used),
+/// empty frames (finish_and_clear), height and width 0
+fn frame_cases(r: &mut Rng) -> Vec<Case> {
+    let templates = [
+        "a", "aaaaaaaaaaaa", "aaaa\nbb\ncccccc", "a\n\nb", "\na", "aaaaaaaaaaaaaaaaaaaaaaaaa\nb\nc\nd\ne\nf", "x\ny\nz\n",
+        "0123456789\n0123456789\n0123456789\n0123456789", "",
+    ];
+    let mut v = vec![];
+    for t in templates {
+        let mut frames = vec![];
+        for tw in [80u16, 10, 3, 1, 0] {
+            // a fixed family and a random one
+            frames.push(FramePlan { tw, steps: vec![(0, 24), (0, 2), (0, 2), (0, 24), (1, 24), (0, 24)] });
+            frames.push(FramePlan { tw, steps: vec![(0, 3), (0, 1), (0, 0), (0, 5), (1, 1), (0, 3)] });
+            let steps = (0..6).map(|i| (if i >= 3 && r.chance(1, 3) { 1u8 } else { 0 }, *r.pick(&[0u16, 1, 2, 3, 4, 5, 24, 65535]))).collect();
+            frames.push(FramePlan { tw, steps });
+        }
+        v.push(Case { ctor: Ctor::WithTemplate(t.to_string()), ops: vec![], states: vec![], tick_idx: vec![0], frames });
+    }
     v
 }
 
@@ -953,7 +1067,7 @@ fn main() {
     let header = "From IndModel Require Import Base Template Builder.\nOpen Scope N_scope.\n";
     let mut s = Session::new(&a, "C14", header, "bcase", "builder_check");
     s.shard_size = 60;
-    s.rule = "chains constructor(.tick_chars|.tick_strings|.progress_chars|.template|.with_key)* with 0,1,2,3,10 (and more) tick strings / progress clusters of width 0/1/2/mixed (combining marks, ZWJ emoji, flags, CJK, zero-width), templates from the documented grammar (every key, widths 0..65536+, alignment, truncation, styles, wide elements) and junk; every built style drawn on a recording terminal for states (pos/len at 0, 1, len-1, len, len+1, 2^32, 2^64-1, None; finished or not; 19 message/prefix texts; 6 clock regimes) x widths {0,1,2,3,10,80,65535} x heights, and get_tick_str probed at 0,1,n-2,n-1,n,2^32,2^64-2,2^64-1; non-trivial = at least one builder call or a with_template constructor; tab widths 0..65536 at random plus a corpus at 4097, 2^16, 2^20 (expanded) and 2^20..isize::MAX (nothing to expand) and above isize::MAX (D24); distinct = distinct case text".into();
+    s.rule = "chains constructor(.tick_chars|.tick_strings|.progress_chars|.template|.with_key)* with 0,1,2,3,10 (and more) tick strings / progress clusters of width 0/1/2/mixed (combining marks, ZWJ emoji, flags, CJK, zero-width), templates from the documented grammar (every key, widths 0..65536+, alignment, truncation, styles, wide elements) and junk; every built style drawn on a recording terminal for states (pos/len at 0, 1, len-1, len, len+1, 2^32, 2^64-1, None; finished or not; 19 message/prefix texts; 6 clock regimes) x widths {0,1,2,3,10,80,65535} x heights, and get_tick_str probed at 0,1,n-2,n-1,n,2^32,2^64-2,2^64-1; non-trivial = at least one builder call or a with_template constructor; tab widths 0..65536 at random plus a corpus at 4097, 2^16, 2^20 (expanded) and 2^20..isize::MAX (nothing to expand) and above isize::MAX (D24); 9 literal templates x 15 plans of 6 successive draws with the terminal height changing between draws (taller-than-terminal frames, shrinking terminal, empty frames after finish_and_clear, width/height 0): clear_line calls per draw compared with the model's capped frame counter; distinct = distinct case text".into();
     let mut r = Rng::new(a.seed);
     let mut cases = corpus(&mut r);
     let (n, per_width) = if a.thorough { (6000, 2) } else if a.extended { (3000, 1) } else { (700, 1) };
